@@ -288,6 +288,10 @@ def run(pid, tier, replay=None):
         v.cov["states"] += r["distinct"]
         v.cov["transitions"] += r["states"]
         v.notes["listfwd_design_states"] = r["distinct"]
+        for cfg, inv in (("MC_ListFwd_raw_raw", "EqOK"), ("MC_ListFwd_fwd_fwd", "LookupOK")):
+            r = vlib.tlc("ListFwd", cfg, workers=2, timeout=900)
+            if f"Invariant {inv} is violated" not in r["out"]:
+                raise vlib.ToolError(f"control failed: TLC does not refute {cfg} by {inv}:\n" + r["out"][-1500:])
     if pid == "C04" and not replay:
         # design level: every interleaving of the contract's actions on one fiber (4 frames, 3 handlers, 2 nested loops) keeps
         # HandlersNest, CaughtInsideLoop and SearchDecided; with the pinned tree's rule (a handler AT the bottom frame of a nested
